@@ -168,7 +168,7 @@ def analyse(spec, b, res, viol, check_pruning=False):
     by_set = {}
     for lf in leaves:
         k = frozenset(lf.path)
-        by_set.setdefault(k, set()).add((lf.gkey, lf.feasible))
+        by_set.setdefault(k, set()).add((lf.gkey if lf.feasible else None, lf.feasible))  # infeasible results: only the verdict counts
     for k, v in by_set.items():
         if len(v) > 1:
             bad.append(('order-dependent-result', dict(choices=sorted(k), n_results=len(v))))
